@@ -24,9 +24,9 @@ import MdIt.Model.Link
 namespace MdIt.Link
 open MdIt.Url
 
-/-! ## the safe set of `normalize_link` is the constant extracted from the source -/
+/-! ## the safe set of `normalize_link` is the shipped constant (tied to the source in `Props/GenC17.lean`) -/
 
-theorem safeChars_eq : safeChars = Gen.Consts.safeChars := rfl
+theorem safeChars_eq : safeChars = shippedSafe := rfl
 
 theorem linkSafe_eq : linkSafe = defaultSafe := rfl
 
